@@ -1,5 +1,6 @@
 #![allow(unused_imports, dead_code, unused_variables, unused_mut, non_snake_case, suspicious_double_ref_op)]
 use vstd::prelude::*;
+use vstd::string::*;
 use core::marker::PhantomData;
 use std::num::ParseIntError;
 verus! {
